@@ -91,7 +91,7 @@ CHECKS = {
                 "planted multiset among the best solutions when the planted structure is CN-optimal, every best solution's variants (with "
                 "multiplicity) equal to the simulated haplotypes. Three genuine defects found and repaired by fix: commits; one input class "
                 "(two indels <= 20 bp apart) is a known finding.",
-        "text_more": "Refinement stage, for EVERY instance (Props/C01Minor): under the decidable clauses PlantedMinor (planted candidates fill the major solution, every considered variant / reference row is observed on exactly the planted carriers, a planted candidate has gene copies at and at most one variant per considered site, rules 5/6 leave room, every read-phase pattern that some slot can explain is attributed to a planted copy agreeing with it at every site) the closed-form planted point satisfies all fourteen constraint families of MinorInst.build - read-phase block included, phase cells proved to be keyed without repetition - and scores 0 (planted_minor_zero), hence every optimum carries every considered variant on exactly the planted number of copies (planted_minor_optima_exact); the clauses are decided by Lean on the real inputs of solve_minor_model (plantedMinorB_iff; tie family planted_minor_premise: where they hold the best refinement reported must score 0). A fifth of the samples are genotyped with indelpost=false; the structure clause is decided independently of the copy-number stage's own answer (region depths within a quarter copy of the planted structure). Five genuine defects found through this check were repaired by fix: commits. ",
+        "text_more": "Spec level (Props/C01Spec): a planted multiset is an admissible decision of documented score 0 (planted_admissible, planted_spec_zero), no multiset has a negative documented score (specMajor_nonneg), hence with zero-error evidence every optimum of the major ILP selects an admissible multiset of documented score 0 and scores 0 (optimum_spec_zero_of_planted, via C02 major_optimal_score_is_least_documented). Refinement stage, for EVERY instance (Props/C01Minor): under the decidable clauses PlantedMinor (planted candidates fill the major solution, every considered variant / reference row is observed on exactly the planted carriers, a planted candidate has gene copies at and at most one variant per considered site, rules 5/6 leave room, every read-phase pattern that some slot can explain is attributed to a planted copy agreeing with it at every site) the closed-form planted point satisfies all fourteen constraint families of MinorInst.build - read-phase block included, phase cells proved to be keyed without repetition - and scores 0 (planted_minor_zero), hence every optimum carries every considered variant on exactly the planted number of copies (planted_minor_optima_exact); the clauses are decided by Lean on the real inputs of solve_minor_model (plantedMinorB_iff; tie family planted_minor_premise: where they hold the best refinement reported must score 0). A fifth of the samples are genotyped with indelpost=false; the structure clause is decided independently of the copy-number stage's own answer (region depths within a quarter copy of the planted structure). Five genuine defects found through this check were repaired by fix: commits. ",
         "design_ref": "DESIGN.md section 10.2-10.3 (as built), section 4 (C01), 5 (plan)",
         "note": "PARTIAL: the premises Planted / PlantedMinor (the pileup of error-free reads is the zero-error evidence of the planted "
                 "copies) are decided per sample by evaluating the Lean definitions on the real stage inputs (translation validation), not "
